@@ -145,6 +145,20 @@ def handler : Handler := fun op j =>
     let s0 := LinOpState.init v jitOpt
     let r := ops.foldl step (s0, [jSt s0])
     some (ok (jArr r.2.reverse))
+  | "trace" => do
+    -- cached traces: which value of each attribute a call with signature `probe` computes with
+    let traced ← (field? j "traced").bind (getListOf? getStr?)
+    let names ← (field? j "names").bind (getListOf? getStr?)
+    let init ← fInt? j "init"
+    let probe ← fNat? j "probe"
+    let ops ← (fList? j "ops").bind (fun l => l.mapM (fun o => do
+      match (← fStr? o "k") with
+      | "set" => some (TraceOp.set (← fStr? o "a") (← fInt? o "v"))
+      | "call" => some (TraceOp.call (← fNat? o "sig"))
+      | _ => none))
+    let o := TracedObj.run (⟨fun _ => init, []⟩ : TracedObj Int) ops
+    let eff := o.effective (fun a => traced.contains a) probe
+    some (ok (jArr (names.map (fun a => jI (eff a)))))
   | _ => none
 
 def main : IO Unit := mainLoop handler
